@@ -16,6 +16,7 @@ bytes) — so ".." segments (after percent-decoding) are exactly the excluded in
 -/
 import SwV.Model.C29
 import SwV.Spec.C29
+import SwV.Gen.C29
 namespace SwV.Props.C29
 open SwV.Model.C19 (Bytes)
 open SwV.Model.C29 SwV.Spec.C29
@@ -95,5 +96,105 @@ theorem copy_source_escapes_buckets_dir :
 /-- helpers agree with what the judge assumes -/
 theorem uploads_folder_shape (b : Bytes) : genUploadsFolder b = joinSegs [buckets, b, uploads] := by
   simp [genUploadsFolder, joinSegs]
+
+/-! ## T1 bridges: facts regenerated from the source by `extract` (props/C29/extract.json → `SwV.Gen.C29`)
+
+Each theorem states the text of a filer-path / filer-URL construction site as it stands in the working tree
+together with the model equation that mirrors it; an edit to the Go code changes the generated string and
+breaks the theorem of that name. -/
+
+/-- `getBucketAndObject` (the object always starts with "/") and `urlPathEscape` (escape every "/"-separated
+    part, keep the separators: the filer sees the same segments after decoding) -/
+theorem bridge_request_to_key :
+    SwV.Gen.C29.gbo_bucket = "bucket = vars[\"bucket\"]" ∧ SwV.Gen.C29.gbo_object = "object = vars[\"object\"]" ∧
+    SwV.Gen.C29.gbo_no_lead_slash = "!strings.HasPrefix(object, \"/\")" ∧
+    SwV.Gen.C29.gbo_add_lead_slash = "object = \"/\" + object" ∧
+    SwV.Gen.C29.esc_split_what = "object" ∧ SwV.Gen.C29.esc_split_sep = "\"/\"" ∧
+    SwV.Gen.C29.esc_part = "part" ∧ SwV.Gen.C29.esc_join_sep = "\"/\"" := by decide
+
+/-- the object routes PUT / GET / HEAD / DELETE / POST-policy address `BucketsPath/bucket` + escaped key
+    (model: route default case of `addressed`) -/
+theorem bridge_object_urls :
+    SwV.Gen.C29.put_url = "uploadUrl := fmt.Sprintf(\"http://%s%s/%s%s\", s3a.option.Filer, s3a.option.BucketsPath, bucket, urlPathEscape(object))" ∧
+    SwV.Gen.C29.get_url = "destUrl := fmt.Sprintf(\"http://%s%s/%s%s\", s3a.option.Filer, s3a.option.BucketsPath, bucket, urlPathEscape(object))" ∧
+    SwV.Gen.C29.head_url = "destUrl := fmt.Sprintf(\"http://%s%s/%s%s\", s3a.option.Filer, s3a.option.BucketsPath, bucket, urlPathEscape(object))" ∧
+    SwV.Gen.C29.delete_url = "destUrl := fmt.Sprintf(\"http://%s%s/%s%s?recursive=true\", s3a.option.Filer, s3a.option.BucketsPath, bucket, urlPathEscape(object))" ∧
+    SwV.Gen.C29.post_url = "uploadUrl := fmt.Sprintf(\"http://%s%s/%s%s\", s3a.option.Filer, s3a.option.BucketsPath, bucket, urlPathEscape(object))" ∧
+    (∀ (b key uid : Bytes) (names : List Bytes),
+      addressed b "put" key uid names = [clean ([buckets, b] ++ splitSlash (pctDecode key))] ∧
+      addressed b "get" key uid names = [clean ([buckets, b] ++ splitSlash (pctDecode key))] ∧
+      addressed b "del" key uid names = [clean ([buckets, b] ++ splitSlash (pctDecode key))]) :=
+  ⟨rfl, rfl, rfl, rfl, rfl, fun _ _ _ _ => ⟨rfl, rfl, rfl⟩⟩
+
+/-- `genUploadsFolder` and the multipart routes (`BucketsPath/bucket/.uploads` + "/" + upload id) -/
+theorem bridge_uploads_folder :
+    SwV.Gen.C29.uploads_fmt = "\"%s/%s/.uploads\"" ∧ SwV.Gen.C29.uploads_root = "s3a.option.BucketsPath" ∧
+    SwV.Gen.C29.uploads_bucket = "bucket" ∧
+    String.ofList (uploads.map Char.ofNat) = ".uploads" ∧ String.ofList (buckets.map Char.ofNat) = "buckets" ∧
+    (∀ b : Bytes, genUploadsFolder b = [slash] ++ buckets ++ [slash] ++ b ++ [slash] ++ uploads) ∧
+    SwV.Gen.C29.part_url = "uploadUrl := fmt.Sprintf(\"http://%s%s/%s/%04d.part?collection=%s\", s3a.option.Filer, s3a.genUploadsFolder(bucket), uploadID, partID, bucket)" ∧
+    SwV.Gen.C29.part_exists_dir = "s3a.genUploadsFolder(bucket)" ∧ SwV.Gen.C29.part_exists_name = "uploadID" ∧
+    SwV.Gen.C29.copypart_dst_url = "dstUrl := fmt.Sprintf(\"http://%s%s/%s/%04d.part?collection=%s\", s3a.option.Filer, s3a.genUploadsFolder(dstBucket), uploadID, partID, dstBucket)" ∧
+    SwV.Gen.C29.done_upload_dir = "uploadDirectory := s3a.genUploadsFolder(*input.Bucket) + \"/\" + *input.UploadId" ∧
+    SwV.Gen.C29.done_rm_dir = "s3a.genUploadsFolder(*input.Bucket)" ∧ SwV.Gen.C29.done_rm_name = "*input.UploadId" ∧
+    SwV.Gen.C29.abort_exists_dir = "s3a.genUploadsFolder(*input.Bucket)" ∧ SwV.Gen.C29.abort_exists_name = "*input.UploadId" ∧
+    SwV.Gen.C29.abort_rm_dir = "s3a.genUploadsFolder(*input.Bucket)" ∧ SwV.Gen.C29.abort_rm_name = "*input.UploadId" ∧
+    SwV.Gen.C29.parts_list_dir = "s3a.genUploadsFolder(*input.Bucket) + \"/\" + *input.UploadId" ∧
+    (∀ (b key uid : Bytes) (names : List Bytes),
+      addressed b "mpabort" key uid names = [clean ([buckets, b] ++ [uploads] ++ splitSlash uid)] ∧
+      addressed b "mppart" key uid names = [clean ([buckets, b] ++ [uploads] ++ splitSlash uid)] ∧
+      addressed b "mplist" key uid names = [clean ([buckets, b] ++ [uploads] ++ splitSlash uid)] ∧
+      addressed b "mpdone" key uid names =
+        [clean ([buckets, b] ++ [uploads] ++ splitSlash uid), clean ([buckets, b] ++ splitSlash (pctDecode key))]) :=
+  ⟨rfl, rfl, rfl, by decide, by decide, fun _ => rfl, rfl, rfl, rfl, rfl,
+   rfl, rfl, rfl, rfl, rfl, rfl, rfl, rfl,
+   fun _ _ _ _ => ⟨rfl, rfl, rfl, rfl⟩⟩
+
+/-- CompleteMultipartUpload writes the final object at `BucketsPath/bucket/Dir(key)` + "/" + `Base(key)` -/
+theorem bridge_complete_target :
+    SwV.Gen.C29.done_entry_name = "entryName := filepath.Base(*input.Key)" ∧
+    SwV.Gen.C29.done_dir_name = "dirName := filepath.Dir(*input.Key)" ∧
+    SwV.Gen.C29.done_full_dir = "dirName = fmt.Sprintf(\"%s/%s/%s\", s3a.option.BucketsPath, *input.Bucket, dirName)" ∧
+    SwV.Gen.C29.done_mkfile_dir = "dirName" ∧ SwV.Gen.C29.done_mkfile_name = "entryName" :=
+  ⟨rfl, rfl, rfl, rfl, rfl⟩
+
+/-- copy sources: `pathToBucketAndObject` and the source / destination URLs -/
+theorem bridge_copy_source :
+    SwV.Gen.C29.p2bo_trim = "path = strings.TrimPrefix(path, \"/\")" ∧
+    SwV.Gen.C29.p2bo_split = "parts := strings.SplitN(path, \"/\", 2)" ∧
+    SwV.Gen.C29.p2bo_has_object = "len(parts) == 2" ∧
+    SwV.Gen.C29.copy_src_split = "srcBucket, srcObject := pathToBucketAndObject(cpSrcPath)" ∧
+    SwV.Gen.C29.copy_dst_url = "dstUrl := fmt.Sprintf(\"http://%s%s/%s%s?collection=%s\", s3a.option.Filer, s3a.option.BucketsPath, dstBucket, dstObject, dstBucket)" ∧
+    SwV.Gen.C29.copy_src_url = "srcUrl := fmt.Sprintf(\"http://%s%s/%s%s\", s3a.option.Filer, s3a.option.BucketsPath, srcBucket, srcObject)" ∧
+    SwV.Gen.C29.copypart_src_split = "srcBucket, srcObject := pathToBucketAndObject(cpSrcPath)" ∧
+    SwV.Gen.C29.copypart_src_url = "srcUrl := fmt.Sprintf(\"http://%s%s/%s%s\", s3a.option.Filer, s3a.option.BucketsPath, srcBucket, srcObject)" ∧
+    (∀ (p b o : Bytes), cutFirstSlash (if p.head? = some slash then p.drop 1 else p) = some (b, o) →
+      pathToBucketAndObject p = (b, [slash] ++ o)) ∧
+    (∀ (p : Bytes), cutFirstSlash (if p.head? = some slash then p.drop 1 else p) = none →
+      pathToBucketAndObject p = ((if p.head? = some slash then p.drop 1 else p), [slash])) := by
+  refine ⟨rfl, rfl, rfl, rfl, rfl, rfl, rfl, rfl, ?_, ?_⟩
+  · intro p b o h; simp only [pathToBucketAndObject, h]
+  · intro p h; simp only [pathToBucketAndObject, h]
+
+/-- batch delete: every listed name is resolved below `BucketsPath/bucket` (model route "bdel") -/
+theorem bridge_batch_delete :
+    SwV.Gen.C29.bdel_last_sep = "lastSeparator := strings.LastIndex(object.ObjectName, \"/\")" ∧
+    SwV.Gen.C29.bdel_has_dir = "lastSeparator > 0 && lastSeparator+1 < len(object.ObjectName)" ∧
+    SwV.Gen.C29.bdel_name = "entryName = object.ObjectName[lastSeparator+1:]" ∧
+    SwV.Gen.C29.bdel_dir = "parentDirectoryPath = \"/\" + object.ObjectName[:lastSeparator]" ∧
+    SwV.Gen.C29.bdel_full_dir = "parentDirectoryPath = fmt.Sprintf(\"%s/%s%s\", s3a.option.BucketsPath, bucket, parentDirectoryPath)" ∧
+    SwV.Gen.C29.bdel_call_dir = "parentDirectoryPath" ∧ SwV.Gen.C29.bdel_call_name = "entryName" ∧
+    (∀ (b key uid : Bytes) (names : List Bytes),
+      addressed b "bdel" key uid names = names.map fun n => clean ([buckets, b] ++ splitSlash n)) :=
+  ⟨rfl, rfl, rfl, rfl, rfl, rfl, rfl, fun _ _ _ _ => rfl⟩
+
+/-- weakest supplement: hashes of the whole mirrored functions; `util.JoinPath` / `util.Join` (= `clean`) is
+    where every filer entry point resolves `directory + "/" + name` -/
+theorem bridge_pins :
+    SwV.Gen.C29.src_getBucketAndObject = "5930b7fd405180b1" ∧ SwV.Gen.C29.src_urlPathEscape = "e3d53def12d52dca" ∧
+    SwV.Gen.C29.src_genUploadsFolder = "642f7a8fe1ad052c" ∧ SwV.Gen.C29.src_pathToBucketAndObject = "f0b67e2a47959e2d" ∧
+    SwV.Gen.C29.src_GetObjectHandler = "5cb3c0048f36219d" ∧ SwV.Gen.C29.src_HeadObjectHandler = "9b148520d9b7927b" ∧
+    SwV.Gen.C29.src_DeleteObjectHandler = "38edd39c6fcc0bad" ∧ SwV.Gen.C29.src_DirAndName = "e60a0f7d0a5a6e53" ∧
+    SwV.Gen.C29.src_JoinPath = "d79f570ab2892ed9" ∧ SwV.Gen.C29.src_Join = "4f2a33a966f6ce1f" := by decide
 
 end SwV.Props.C29
